@@ -185,6 +185,8 @@ pub fn frontier(name: &str, cfg: &Config, depth: usize, max_states: usize) -> Ve
         let held: Vec<(usize, usize)> = m.held.iter().map(|(&s, &o)| (s, o)).collect();
         if let Some(&(s0, o0)) = held.first() {
             alpha.push(u(p(spec, s0, o0, Some(0))));
+            // a targeted allocation inside a held block (fails, must undo its counter)
+            alpha.push(a(ga(spec, 0, None, s0 + (1usize << o0) - 1)));
         }
         if held.len() > 1 {
             let (s1, o1) = *held.last().unwrap();
@@ -301,6 +303,10 @@ pub fn generate(level: usize) -> Vec<Scenario> {
             a(g(spec, HUGE_ORDER, Some(0))),
             a(g(spec, 0, None)),
             a(Op::Drain),
+            // targeted allocations of frames that are (still) allocated: they fail and undo
+            a(ga(spec, 0, None, b1)),
+            a(ga(spec, 0, Some(0), b7 + 3)),
+            a(ga(spec, 6, None, b6)),
         ];
         out.extend(pairs(&format!("F4-frees-{cfg_name}"), &cfg, &setup, &alpha));
     }
